@@ -187,7 +187,13 @@ class InterpFunction:
         self.defining_class = defining_class
         self.filename = filename
         self.real = real
-        self.is_generator = (not isinstance(node, ast.Lambda)) and _func_contains_yield(node)
+        if isinstance(node, ast.Lambda):
+            self.is_generator = False
+        else:
+            g = getattr(node, '_pyvc_is_gen', None)
+            if g is None:
+                g = node._pyvc_is_gen = _func_contains_yield(node)
+            self.is_generator = g
 
     def __get__(self, obj, objtype=None):
         if obj is None:
@@ -236,6 +242,15 @@ class Interp:
         self.always_sdict = False
         self.loop_invariants = {}  # (qualified name, loop ordinal) -> invariant object
         self.trace_hook = None
+
+    def reset_path(self):
+        """ per-path state (the function cache and the source database persist across paths) """
+        self.stubs = {}
+        self.depth = 0
+        self.interpreted = {}
+        self.stubbed = {}
+        self.always_sdict = False
+        self.loop_invariants = {}
 
     # ------------------------------------------------------------------------------------------
     #  function resolution
@@ -971,6 +986,8 @@ class Interp:
         from .containers import SDict, sym_getitem
         if isinstance(obj, SDict):
             return obj[idx]
+        if _is_ndarray(obj):
+            idx = _concrete_index_arrays(idx)
         if has_sym(idx):
             return sym_getitem(self, obj, idx)
         gi = _find_in_mro(type(obj), '__getitem__') if not isinstance(obj, (tuple, list, dict, str)) else None
@@ -991,6 +1008,8 @@ class Interp:
             return
         if _is_ndarray(obj) and obj.dtype != object and has_sym(v):
             raise Unsupported("store of a symbolic value into a concrete-dtype ndarray")
+        if _is_ndarray(obj):
+            idx = _concrete_index_arrays(idx)
         obj[idx] = v
 
     def delitem(self, obj, idx):
@@ -1176,6 +1195,19 @@ def _find_in_mro(cls, name):
                 return None
             return v
     return None
+
+
+def _concrete_index_arrays(idx):
+    """ object-dtype index arrays holding concrete python ints -> int64 (numpy refuses object indices) """
+    import numpy as np
+    if isinstance(idx, tuple):
+        return tuple(_concrete_index_arrays(i) for i in idx)
+    if _is_ndarray(idx) and idx.dtype == object and not has_sym(idx):
+        try:
+            return idx.astype(np.int64)
+        except (TypeError, ValueError):
+            return idx
+    return idx
 
 
 def _is_ndarray(x):
